@@ -80,8 +80,8 @@ def job(args):
                 _ast.parse(t)
         prog = Program(src, root=f"<cross:{sid}+{tname}>")
         ctx = analyse(prog, prop, "quick")
-        if ctx.violations:
-            return (sid, tname, "caught", ctx.violations[0].rule, round(time.time() - t0, 1))
+        if ctx.new_violations:
+            return (sid, tname, "caught", ctx.new_violations[0].rule, round(time.time() - t0, 1))
         if ctx.undecideds:
             o = ctx.undecideds[0]
             return (sid, tname, "undecided", f"{o.rule} {o.construct}: {o.desc}"[:300], round(time.time() - t0, 1))
